@@ -170,6 +170,56 @@ def _conj_transposes(k0):
     return [T.enc(x) for x in out]
 
 
+def _a3c(run, M, tier):
+    """the adjoint of a broadcasting multiply sums over exactly the axes along which the input was broadcast.  The helpers that compute those
+    axes are small integer programs over shapes; they are decided by *bounded exhaustive constant folding*: the value numbering evaluates the
+    helper's source on every pair of concrete shapes from a finite family (loops unrolled, conditions decided on constants -- sigpy itself is
+    never run) and the resulting axes are compared with the definition: axis d of the output is summed iff the input, aligned to the right,
+    has extent 1 (or no axis) there while the output has extent > 1.  Summing an output axis of extent 1 is harmless and not compared."""
+    import itertools
+    from ..vn import unroll_loop
+    run.rule("A3c", "the sum axes of the Multiply / MatMul adjoints are exactly the broadcast axes of the input, for every pair of shapes of a finite family "
+                    "(ranks 0-2 and 2 against 3, extents {1, 3}); decided by constant folding of the helpers' source")
+    sizes = (1, 3)
+    small = [s_ for r_ in range(0, 3) for s_ in itertools.product(sizes, repeat=r_)]
+    rank3 = list(itertools.product(sizes, repeat=3)) if tier == "thorough" else [(3, 3, 3), (3, 1, 3), (1, 3, 3), (3, 3, 1)]
+    fam = [(i_, m_) for i_ in small for m_ in small] + [(i_, m_) for i_ in small if len(i_) == 2 for m_ in rank3] + [(i_, m_) for i_ in rank3 for m_ in small if len(m_) == 2]
+    for hq, skip_last in (("sigpy.linop._get_multiply_adjoint_sum_axes", 0), ("sigpy.linop._get_matmul_adjoint_sum_axes", 2)):
+        f = M.func(hq)
+        n = 0
+        bad = []
+        for ish, msh in fam:
+            if skip_last and (len(ish) < 2 or len(msh) < 2):
+                continue
+            nd = max(len(ish), len(msh))
+            ie = (1,) * (nd - len(ish)) + tuple(ish)
+            me = (1,) * (nd - len(msh)) + tuple(msh)
+            if skip_last:
+                # matrix multiply: only the batch axes broadcast; the trailing matrix axes are given some consistent extents
+                osh = tuple(max(a_, b_) for a_, b_ in zip(ie[:-2], me[:-2])) + (me[-2], ie[-1])
+            else:
+                osh = tuple(max(a_, b_) for a_, b_ in zip(ie, me))
+            lead = nd - skip_last
+            want = {d for d in range(lead) if ie[d] == 1 and osh[d] != 1}
+            n += 1
+            try:
+                vn = VN(M, f, loop_hook=unroll_loop, inline={"sigpy.util._expand_shapes"})
+                env = {"ishape": tuple(T.const(x) for x in ish), "mshape": tuple(T.const(x) for x in msh), "oshape": tuple(T.const(x) for x in osh)}
+                outs = [o for o in vn.run(f.body, State(env)) if o.status == "return"]
+                vals = outs[0].ret if len(outs) == 1 else None
+                got = {int(x.as_fraction()) for x in vals} if isinstance(vals, tuple) and all(isinstance(x, T.Poly) and x.as_fraction() is not None for x in vals) else None
+            except Unrecognised as e:
+                got = None
+            if got is None:
+                bad.append("ishape=%s, mshape=%s: the helper's source cannot be folded to a list of axes" % (list(ish), list(msh)))
+            elif {d for d in got if 0 <= d < len(osh) and osh[d] != 1} != want or any(d < 0 or d >= len(osh) for d in got):
+                bad.append("ishape=%s, mshape=%s (output %s): sums over axes %s, the input is broadcast along %s" % (list(ish), list(msh), list(osh), sorted(got), sorted(want)))
+        run.check(not bad, "A3c", hq.split(".")[-1], f.loc(), "%d shape pairs folded: summed axes = broadcast axes of the input" % n,
+                  "%s: %s%s -- the adjoint then sums the wrong axes (or reshapes an array of the wrong size), so <Ax, y> != <x, A^H y> for those shapes" % (
+                      hq.split(".")[-1], "; ".join(bad[:3]), " (and %d more)" % (len(bad) - 3) if len(bad) > 3 else ""), stmt="A3c:" + hq)
+        run.floor("A3c-" + hq.split(".")[-1], 20, n, "shape pairs")
+
+
 def _a9(run, M, sigs):
     n = 0
     for cname, (flag, kind, what) in FLAGGED.items():
@@ -348,6 +398,7 @@ def check(run, M, tier):
 
     # ---- A9 flag semantics
     _a9(run, M, sigs)
+    _a3c(run, M, tier)
     # ---- A6
     check_raw_axes(run, M, "A6", scope="C01")
     # ---- A8 relational obligations on the numerical cores of the pairs
